@@ -722,12 +722,12 @@ func connstateSpecs(thorough bool) []*spec {
 		}
 	}
 	return []*spec{
-		{name: "limits max=1 2x2", peers: [][]int{P(2), P(2)}, maxOpen: 1, maxMutual: 1, nbr: "none", nconn: 2, closeOps: true, depth: 8},
-		{name: "limits max=2 3+2", peers: [][]int{P(3), P(2)}, maxOpen: 2, maxMutual: 1, nbr: "full", nconn: 2, closeOps: true, depth: 7},
-		{name: "mutual max=3 mutual=1", peers: [][]int{P(3), P(1)}, maxOpen: 3, maxMutual: 1, nbr: "all", nconn: 2, depth: 7},
-		{name: "mutual max=4 mutual=2", peers: [][]int{P(4)}, maxOpen: 4, maxMutual: 2, nbr: "all", nconn: 1, depth: 6},
-		{name: "blacklist 2x2", peers: [][]int{P(2), P(2)}, maxOpen: 1, maxMutual: 1, nbr: "none", nconn: 1, blOps: true, dts: []time.Duration{s9, s2, s11}, depth: 7},
-		{name: "all 3+2", peers: [][]int{P(3), P(2)}, maxOpen: 2, maxMutual: 1, nbr: "full", nconn: 2, closeOps: true, blOps: true, dts: []time.Duration{s9, s2}, depth: 5},
+		{name: "limits max=1 2x2", peers: [][]int{P(2), P(2)}, maxOpen: 1, maxMutual: 1, nbr: "none", nconn: 2, closeOps: true, depth: 9},
+		{name: "limits max=2 3+2", peers: [][]int{P(3), P(2)}, maxOpen: 2, maxMutual: 1, nbr: "full", nconn: 2, closeOps: true, depth: 8},
+		{name: "mutual max=3 mutual=1", peers: [][]int{P(3), P(1)}, maxOpen: 3, maxMutual: 1, nbr: "all", nconn: 2, depth: 8},
+		{name: "mutual max=4 mutual=2", peers: [][]int{P(4)}, maxOpen: 4, maxMutual: 2, nbr: "all", nconn: 1, depth: 8},
+		{name: "blacklist 2x2", peers: [][]int{P(2), P(2)}, maxOpen: 1, maxMutual: 1, nbr: "none", nconn: 1, blOps: true, dts: []time.Duration{s9, s2, s11}, depth: 8},
+		{name: "all 3+2", peers: [][]int{P(3), P(2)}, maxOpen: 2, maxMutual: 1, nbr: "full", nconn: 2, closeOps: true, blOps: true, dts: []time.Duration{s9, s2}, depth: 6},
 	}
 }
 
